@@ -159,6 +159,7 @@ REG['C11'] = {
         dict(id='c08_k_month_next', thorough_only=True, fn='SixtyCycleMonth::next', clause='12*year + index moves by exactly n (|n| <= 300)'),
         dict(id='c11_k_div_euclid_12', fn='isize::div_euclid (std)', clause='the assumed Verus specification of div_euclid for the divisor 12: floor division, remainder in 0..12'),
         dict(id='c02_k_lunar_day_next', fn='LunarDay::next', clause='goes through the civil calendar with exactly n'),
+        dict(id='c11_k_sixty_year_next', fn='SixtyCycleYear::new / next / get_sixty_cycle', clause='accepted exactly for -1..=9999; next adds n; year pillar == (year - 4) mod 60'),
         dict(id='c11_k_sixty_day_next', fn='SixtyCycleDay::next', clause='hands exactly n to SolarDay::next on the wrapped day and rebuilds from exactly the day that comes back'),
         dict(id='c11_k_sixty_hour_next', fn='SixtyCycleHour::next', clause='hands exactly n (seconds) to SolarTime::next on the wrapped instant and rebuilds from exactly the instant that comes back'),
         dict(id='c11_k_lunar_hour_carry', fn='LunarHour::next', clause='hour + 2n == 24 * (days handed to LunarDay::next) + new hour, 0 <= new hour < 24, minute and second kept, every hour and |n| < 2^40 (day step and constructor replaced by recording stubs)'),
@@ -266,7 +267,8 @@ REG['C07'] = {
 
 
 REG['C08'] = {
-    'K': [dict(id='c08_k_first_month_args', fn='SixtyCycleYear::get_first_month', clause='stem index fed to the name lookup == Five-Tigers stem of the year stem, every year -1..9999 (index-faithful cheap constructors)'),
+    'K': [dict(id='c11_k_sixty_year_next', fn='SixtyCycleYear::get_sixty_cycle', clause='year pillar == (year - 4) mod 60 for every year -1..=9999'),
+          dict(id='c08_k_first_month_args', fn='SixtyCycleYear::get_first_month', clause='stem index fed to the name lookup == Five-Tigers stem of the year stem, every year -1..9999 (index-faithful cheap constructors)'),
           dict(id='c08_k_month_next', thorough_only=True, fn='SixtyCycleMonth::next / get_index_in_year', clause='12*year + index moves by exactly n and the pillar by n, every month and |n| <= 300 (wider n: solver budget)'),
           dict(id='c08_k_month_pillar_args', fn='LunarMonth::get_sixty_cycle', clause='branch index == 2 + position, stem index == Five-Tigers stem + position (mod 10/12), every year and position'),
           dict(id='c08_k_from_solar_day', prefix=True, min_count=3, fn='SixtyCycleDay::from_solar_day (term positions 0..=26 split over three harnesses)', clause='real body over ARBITRARY callee answers (start of spring, lunar date, governing term and its day, constrained only by C06 order and C02 year adjacency): year pillar year == civil year from the start-of-spring day on, previous year before it; month pillar == first-month pillar advanced by floor((term position - 3)/2); day pillar and date carried'),
